@@ -125,7 +125,12 @@ Scenario gen_mix(vu::Rng& rng, const Knobs& k, const std::string& family) {
     sc.ccfg.client_id = "c" + std::to_string(rng.below(1000));
     int rm = rng.pick(k.rm_choices);
     if (rm > 0) sc.bcfg.caps.receive_maximum = (uint16_t)rm;
-    if (k.authenticator_pct && (int)rng.below(100) < k.authenticator_pct) { sc.ccfg.use_authenticator = true; sc.ccfg.auth_method = "SIM-AUTH"; sc.broker_auth_rounds = (int)rng.below(2); }
+    if (k.authenticator_pct && (int)rng.below(100) < k.authenticator_pct) {
+        sc.ccfg.use_authenticator = true; sc.ccfg.auth_method = "SIM-AUTH"; sc.broker_auth_rounds = (int)rng.below(2);
+        // client-initiated re-authentication in the middle of the traffic
+        int nr = (int)rng.below(3);
+        for (int i = 0; i < nr; ++i) { Action a; a.kind = Action::reauth; a.at = (vt)rng.range(0, k.span + 2 * SEC); sc.script.push_back(a); }
+    }
     if (k.rm_change_pct && (int)rng.below(100) < k.rm_change_pct) {
         int n = (int)rng.range(2, 4);
         for (int i = 0; i < n; ++i) sc.bcfg.receive_maximum_script.push_back(rng.pick(std::vector<int>{0, 0, 1, 2, 3, 8}));
@@ -1040,6 +1045,8 @@ void run_c19(Judge& j, uint64_t n, int64_t only = -1) {
             AttemptPlan a; a.hs = AttemptPlan::hs_custom; a.custom_bytes = hostile;
             base.attempts.push_back(a);
         }
+        // with an authenticator configured a server-sent AUTH is part of a re-authentication dialogue, without one it is a protocol error
+        if (rng.chance(1, 4)) { base.ccfg.use_authenticator = true; base.ccfg.auth_method = "SIM-AUTH"; base.broker_auth_rounds = (int)rng.below(2); if (phase >= 1 && rng.chance(1, 2)) { Action ra; ra.kind = Action::reauth; ra.at = 150 * MS; base.script.push_back(ra); } }
         uint32_t own_limit = 0;
         if (phase >= 1 && rng.chance(1, 4)) {
             own_limit = (uint32_t)rng.pick(std::vector<int>{60, 126, 127, 128, 129, 130, 131, 200, 300, 1000});
